@@ -579,6 +579,7 @@ pub fn piece_board_of(b: &Board) -> PieceBoard {
 pub struct C08 {
     table: HashMap<(Board, bool, usize), (GameState, usize)>,
     states: usize,
+    turn_just_changed: bool,
 }
 
 fn std_hash(g: &GameState) -> u64 {
@@ -621,7 +622,9 @@ impl Obs for C08 {
             }
         }
         // start-of-turn: hashes like the same position parsed from text
-        if mo.step == 0 {
+        // (the parser compiles a regex per call, so this is by far the most expensive clause: evaluated at
+        // the first three turn starts - which include the end of a setup - and at every fourth one after)
+        if mo.step == 0 && (mo.turns_completed < 3 || mo.turns_completed % 4 == 0) {
             let text = mo.board.diagram(mo.move_number, mo.gold_to_move);
             if let Ok(Ok(p)) = guard(|| text.parse::<GameState>()) {
                 let ph = guard(|| p.transposition_hash()).map_err(|p| Fail::new("C08:panic", p))?;
@@ -645,7 +648,10 @@ impl Obs for C08 {
         if mo.captures_total > 0 {
             st.bump("state_after_capture");
             st.nontrivial(fp_combine(mo.fingerprint(), mo.captures_total as u64));
+        } else if self.turn_just_changed {
+            st.nontrivial(fp_combine(mo.fingerprint(), 3));
         }
+        self.turn_just_changed = false;
         Ok(())
     }
     fn on_edge(&mut self, e: &Edge, st: &mut Stats) -> Check {
@@ -654,7 +660,7 @@ impl Obs for C08 {
         }
         if !e.before.m.setup && e.before.m.ends_turn(e.maction) {
             st.bump(if matches!(e.maction, MAction::Pass) { "turn_change_by_pass" } else { "turn_change_by_fourth_step" });
-            st.nontrivial(fp_combine(e.after_m.fingerprint(), 3));
+            self.turn_just_changed = true;
         }
         Ok(())
     }
@@ -716,10 +722,11 @@ impl Obs for C09 {
 // =====================================================================================
 pub struct C10 {
     any_action_applied: bool,
+    just_captured: bool,
 }
 impl C10 {
     pub fn new() -> C10 {
-        C10 { any_action_applied: false }
+        C10 { any_action_applied: false, just_captured: false }
     }
 }
 
@@ -850,10 +857,11 @@ impl Obs for C10 {
             ensure!(v.m.board.traps_legal(), "C10:unsupported_on_trap", "a piece stands on a trap without an adjacent friendly piece at {}", ctx);
         }
         let kinds: BTreeSet<u8> = v.m.board.0.iter().filter(|&&c| c != m::EMPTY).map(|&c| m::kind(c)).collect();
-        if v.m.board.piece_count() >= 8 && kinds.len() >= 4 {
-            st.bump("state_ge8_pieces_ge4_kinds");
+        if (v.m.board.piece_count() >= 8 && kinds.len() >= 4) || self.just_captured {
+            st.bump(if self.just_captured { "state_just_after_capture" } else { "state_ge8_pieces_ge4_kinds" });
             st.nontrivial(v.m.board.fingerprint());
         }
+        self.just_captured = false;
         if v.m.setup {
             st.bump("setup_state");
         }
@@ -861,10 +869,10 @@ impl Obs for C10 {
     }
     fn on_edge(&mut self, e: &Edge, st: &mut Stats) -> Check {
         self.any_action_applied = true;
-        if !e.removed.is_empty() {
-            st.bump("state_just_after_capture");
-            st.nontrivial(fp_combine(e.after_m.board.fingerprint(), 1));
-        }
+        // (in a turn tree the next observed state is the child of this edge, on the main line it is the
+        // next state: either way the state right after the capture)
+        self.just_captured = !e.removed.is_empty();
+        let _ = st;
         Ok(())
     }
 }
